@@ -27,6 +27,53 @@ def setup():
     return 0 if b['ok'] else 2
 
 
+def generic_replay(prop, path):
+    """Replay of a recorded violation: show what was recorded, then run the property's check again with the recorded seed and tier on
+    the current /repo and say whether a violation with the same key (or the same broken obligations) is reported again.
+    Exit 1 = reproduced (prints the VIOLATION line of the new run), 0 = not reproduced, 2 = tooling failure."""
+    import json
+    import shutil
+    import subprocess
+    import tempfile
+    from . import common
+    with open(path) as f:
+        rec = json.load(f)
+    print(f'[{prop}] replaying {path}')
+    print(f'  key : {rec.get("key", "(broken obligations)")}')
+    print(f'  what: {str(rec.get("what", rec.get("note", "")))[:600]}')
+    for k, v in (rec.get('replay') or {}).items():
+        print(f'  {k}: {str(v)[:800]}')
+    for b in rec.get('broken_obligations', [])[:5]:
+        print(f'  broken {b.get("kind")}: {b.get("name")} {str(b.get("detail"))[:300]}')
+    keep = tempfile.mkdtemp(prefix='replay_')
+    shutil.copy(path, keep)            # the new run clears replays/<prop>/
+    env = dict(os.environ, VERIF_SEED=str(rec.get('seed', 0)))
+    p = subprocess.run([sys.executable, '-m', 'harness.main', prop, '--tier', rec.get('tier', 'quick')], cwd=common.VERIF, env=env,
+                       capture_output=True, text=True)
+    rdir = os.path.join(common.VERIF, 'replays', prop)
+    again = None
+    if os.path.isdir(rdir):
+        for fn in sorted(os.listdir(rdir)):
+            with open(os.path.join(rdir, fn)) as f:
+                new = json.load(f)
+            if 'key' in rec and new.get('key') == rec['key']:
+                again = fn
+            if 'key' not in rec and 'key' not in new and \
+                    {b.get('name') for b in new.get('broken_obligations', [])} & {b.get('name') for b in rec.get('broken_obligations', [])}:
+                again = fn
+    shutil.rmtree(keep, ignore_errors=True)
+    if p.returncode == 2:
+        print(p.stdout[-2000:] + p.stderr[-2000:])
+        return 2
+    if again:
+        suffix = ' no-failing-input-found' if 'key' not in rec else ''
+        print(f'VIOLATION property={prop} replay=replays/{prop}/{again}{suffix}')
+        print(f'[{prop}] reproduced on the current tree')
+        return 1
+    print(f'[{prop}] not reproduced on the current tree (the check no longer reports this violation)')
+    return 0
+
+
 def main():
     ap = argparse.ArgumentParser()
     ap.add_argument('prop', nargs='?')
@@ -41,7 +88,7 @@ def main():
     mod = importlib.import_module(f'harness.props.{a.prop.lower()}')
     try:
         if a.replay:
-            rc = mod.replay(a.replay)
+            rc = mod.replay(a.replay) if hasattr(mod, 'replay') else generic_replay(a.prop, a.replay)
         else:
             rc = mod.main(a.tier)
     except Exception:  # tooling failure: neither a pass nor a violation
